@@ -66,6 +66,10 @@ CHECKS = {
          "Concurrent pin/unpin histories with unique write ids are submitted through the Consensus RPCs at any member of real 1-3 peer Raft clusters while the leader is read; per-replica journals (tagged FSM.Apply/FSM.Restore from the call stack) are checked for order compatibility, listings against journal versions, acknowledgements against journal timestamps, content against the fold of the journal, tracker hand-offs against applied changes, and the fault-free history for linearizability (porcupine, per-CID register with delete). Then a member is restarted on its folder, or a running follower is partitioned while the leader commits beyond trailing_logs and snapshots (InstallSnapshot onto a non-empty replica), or all peers are shut down and read offline; replicas must converge to the leader's content and keep every acknowledged write.",
          "Pins carry no Origins (known C08 finding). Power loss and SIGKILL points are not covered in this revision. 'Caught up' is bounded by 30 s after faults stop. Snapshot/trailing settings are scaled down (3-10 entries) so that log truncation happens within seconds.",
          "DESIGN.md §4 C01"),
+ "C02": ("exploration", "runtime sequential-spec and convergence monitor: real crdt.Consensus components on real hosts with connection gaters, recording tracker service, journalling fault datastore with a commit-failure window",
+         "Single replicas run with batching disabled, size-triggered, age-triggered and with a queue smaller than the burst (one submitter per CID), and with datastore commit failures placed on a size- or age-triggered commit; the final entry per CID must be the last accepted operation, refused operations must have no effect, batches must become visible within W after their trigger, operations accepted after a failed commit must still take effect, and tracker calls must agree with the final state. Two or three replicas take operations while gaters form and heal partitions; once head sets (read from the stores) are equal the pinsets must be equal.",
+         "W = max(5 s, 30 x age) is the only wall-clock bound. Equal heads not reached in 30 s = inconclusive. Concurrent-winner choice and tracker-call last-ness under multi-replica delivery are not demanded.",
+         "DESIGN.md §4 C02"),
 }
 
 ALL = ["C%02d" % i for i in range(1, 19)]
